@@ -1,10 +1,104 @@
-/- driver handler for component Tab: requests whose first token belongs to it -/
+/-
+  driver handler: replay the history of a real run through the calculus model.
+    replay <LOGIC> ## <trunk nodes ; …> ## <step> ## <step> …
+  steps:  R bi n c|- w|-      table rule on node n of branch bi (witness constant "i.s" / world)
+          C bi w|_ <sent>     closure on the literal set of (base of) sentence at world
+          I bi n              identity / existence closure on node n
+          F bi <Rule> w1 w2 w3
+          D bi i p            identity indiscernability
+          Q bi name n|-       quit flag (ticking node n if the rule ticks)
+  answer: ok steps=<n> unsound=<k> quant=<k> :: <branch> || <branch> …     (branch = nodes ; … ! ticked indices ! closed)
+          reject <i> <reason> :: <tableau so far>
+-/
 import Ptx.Wire
+import Ptx.Tab.Calculus
+import Ptx.Sem.Sem
+import Ptx.Gen.All
 namespace Ptx.Drv.Tab
+open Ptx Ptx.Wire
+
+def parseNodes (ts : Toks) : Option (List Node) :=
+  (splitAt ";" ts).filter (· ≠ []) |>.mapM fun nt =>
+    match Node.parse nt with
+    | some (n, []) => some n
+    | _ => none
+
+def optNat (s : String) : Option (Option Nat) := if s == "-" || s == "_" then some none else s.toNat?.map some
+def optConst (s : String) : Option (Option (Nat × Nat)) :=
+  if s == "-" then some none else
+  match s.splitOn "." with
+  | [a, b] => do some (some (← a.toNat?, ← b.toNat?))
+  | _ => none
+
+def frameRuleOf : String → Option FrameRule
+  | "Reflexive" => some .reflexive | "Transitive" => some .transitive
+  | "Symmetric" => some .symmetric | "Serial" => some .serial | _ => none
+
+/-- a step may come with alternative readings (closure: base sentence candidates) -/
+def parseStep (ts : Toks) : Option (List Step) :=
+  match ts with
+  | ["R", b, n, c, w] => do some [.rule (← b.toNat?) (← n.toNat?) (← optConst c) (← optNat w)]
+  | "C" :: b :: w :: rest => do
+      let (s, r) ← parseSent rest
+      if r ≠ [] then none else
+      let b ← b.toNat?
+      let w ← optNat w
+      some [.close b s w, .close b s.base w]
+  | ["I", b, n] => do some [.closeIdent (← b.toNat?) (← n.toNat?)]
+  | ["F", b, r, w1, w2, w3] => do some [.frame (← b.toNat?) (← frameRuleOf r) (← w1.toNat?) (← w2.toNat?) (← w3.toNat?)]
+  | ["D", b, i, p] => do some [.ident (← b.toNat?) (← i.toNat?) (← p.toNat?)]
+  | ["Q", b, name, tk] => do some [.quit (← b.toNat?) name (← optNat tk)]
+  | _ => none
+
+def sortNat (xs : List Nat) : List Nat :=
+  xs.foldl (fun acc x => let (lo, hi) := acc.partition (· < x); lo ++ [x] ++ hi) []
+
+def showBranch (b : Branch) : String :=
+  " ; ".intercalate (b.nodes.map Node.toWire) ++ " ! " ++ " ".intercalate ((sortNat b.ticked).map toString) ++ " ! " ++
+    (if b.closed then "closed" else "open")
+
+def showTab (t : Tableau) : String := " || ".intercalate (t.map showBranch)
+
+/-- is this step a table-rule step whose key is in the unsound set of `S` / a quantifier rule -/
+def stepFlags (S : LogicData) (t : Tableau) : Step → Bool × Bool
+  | .rule bi n _ _ =>
+      match t[bi]? with
+      | some b =>
+          match b.nodes[n]? with
+          | some (.sent s d _) =>
+              match s.decomp with
+              | some (sh, ng, _) =>
+                  (S.unsoundRules.contains ⟨sh, ng, d⟩, match sh with | .quant _ => true | _ => false)
+              | none => (false, false)
+          | _ => (false, false)
+      | none => (false, false)
+  | _ => (false, false)
+
+def run (L : LogicData) (t0 : Tableau) (steps : List (List Step)) : String :=
+  let S := L.sem
+  let rec go (t : Tableau) (i uns q : Nat) : List (List Step) → String
+    | [] => s!"ok steps={i} unsound={uns} quant={q} :: " ++ showTab t
+    | alts :: rest =>
+        match alts.findSome? (fun s => (applyStep L t s).map (fun t' => (s, t'))) with
+        | some (s, t') =>
+            let (u, qq) := stepFlags S t s
+            go t' (i + 1) (uns + (if u then 1 else 0)) (q + (if qq then 1 else 0)) rest
+        | none => s!"reject {i} illegal-step :: " ++ showTab t
+  go t0 0 0 0 steps
 
 /-- `none` = not my request -/
 def handle (ts : List String) : Option String :=
   match ts with
+  | "replay" :: lg :: "##" :: rest =>
+      match Gen.byName lg with
+      | none => some "err:unknown-logic"
+      | some L =>
+        match splitAt "##" rest with
+        | trunkToks :: stepToks =>
+            match parseNodes trunkToks, stepToks.mapM parseStep with
+            | some nodes, some steps => some (run L [{ nodes := nodes }] steps)
+            | _, _ => some "err:wire"
+        | [] => some "err:wire"
   | _ => none
 
 end Ptx.Drv.Tab
